@@ -195,11 +195,14 @@ class MutableMappingSchemaBuilder(
             The required properties, otherwise an empty set.
         """
         try:
-            required = self._root_node._active_strategies[0]._required
+            strategy = self._root_node._active_strategies[0]
+            required = strategy._required
         except (AttributeError, IndexError):
             return set()
         if required is None:
-            return set()
+            # Bind an actual set to the strategy such that mutating the returned
+            # set is not lost.
+            required = strategy._required = set()
         return cast("set[str]", required)
 
     def check_property_names(self, *names: str) -> None:
